@@ -1112,7 +1112,1278 @@ theorem vecEntries_entry (f : Form) (a b : Operand) (m : Nat) (es : List (Key ×
   obtain ⟨p, hp, rfl⟩ := h1
   exact ⟨rfl, hp⟩
 
+/-! # Wave 2 — matrix aggregates, nested operands, Stock targets, explicit dimensions, conservativity -/
+
+/-! ## 3. `agg_args` for matrices -/
+
+section SemAgg
+open BigOperators
+variable {R : Type} [CommSemiring R]
+variable (O : Ops R) (ρ : String → R) (σ : Nat → V R)
+
+omit [CommSemiring R] in
+theorem allL_map (xss : List (List R)) : allL (xss.map V.lst) = some xss := by
+  induction xss with
+  | nil => simp [allL]
+  | cons x xs ih => simp [allL, ih]
+
+omit [CommSemiring R] in
+theorem listV_lsts (xss : List (List R)) (h : xss ≠ []) : listV (xss.map V.lst) = .lst2 xss := by
+  cases xss with
+  | nil => exact absurd rfl h
+  | cons x xs =>
+    have := allL_map (x :: xs)
+    simp only [List.map_cons] at this
+    simp [listV, allR, this]
+
+theorem eval_ref_list (nm : String) (l : List (List Key)) :
+    eval (car O ρ) σ (.list (l.map (ref nm))) = .lst (l.map (rv ρ nm)) := by
+  simp only [eval, evalL_refs]
+  have : (l.map fun p => V.r (rv ρ nm p)) = (l.map (rv ρ nm)).map V.r := by simp
+  rw [this]
+  show listV ((l.map (rv ρ nm)).map V.r) = _
+  simp only [listV, allR_map]
+
+theorem evalL_rows (nm : String) (ll : List (List (List Key))) :
+    evalL (car O ρ) σ (ll.map fun l => Py.list (l.map (ref nm))) = (ll.map fun l => l.map (rv ρ nm)).map V.lst := by
+  induction ll with
+  | nil => simp [evalL]
+  | cons l ls ih => simp only [List.map_cons, evalL, ih, eval_ref_list]
+
+/-- key paths row by row -/
+def Elem.pathRows (e : Elem) : List (List (List Key)) := e.keys.map fun k => e.inner.map fun l => [k, l]
+
+theorem rows_eq_mat (e : Elem) (hi : e.inner.isEmpty = false) :
+    e.rows = e.pathRows.map fun l => l.map (ref e.name) := by
+  simp [Elem.rows, hi, Elem.pathRows, List.map_map, Function.comp_def]
+
+omit [CommSemiring R] in
+theorem vals_eq_mat (e : Elem) (hi : e.inner.isEmpty = false) :
+    e.vals ρ = (e.pathRows.map fun l => l.map (rv ρ e.name)).flatten := by
+  simp [Elem.vals, Elem.paths, hi, Elem.pathRows, List.map_flatten, List.map_map, Function.comp_def]
+
+/-- **mean / median / std of a matrix**: the nested list display `[[a00, a01, …], [a10, …], …]` evaluates to
+the list of rows, and the numpy function receives (the flattening of it =) exactly the row-major entry list -/
+theorem agg_args_mat (e : Elem) (fn : String) (hi : e.inner.isEmpty = false) :
+    eval (car O ρ) σ e.display = (if e.keys = [] then .lst [] else .lst2 (e.pathRows.map fun l => l.map (rv ρ e.name))) ∧
+    eval (car O ρ) σ (npCall fn e.display) = .r (O.fn fn (e.vals ρ)) := by
+  have hd : eval (car O ρ) σ e.display
+      = (if e.keys = [] then .lst [] else .lst2 (e.pathRows.map fun l => l.map (rv ρ e.name))) := by
+    simp only [Elem.display, hi, Bool.false_eq_true, if_false, eval, rows_eq_mat e hi, List.map_map, Function.comp_def]
+    rw [evalL_rows]
+    by_cases hk : e.keys = []
+    · simp [hk, Elem.pathRows, car, listV, allR]
+    · simp only [hk, if_false]
+      have : (e.pathRows.map fun l => l.map (rv ρ e.name)) ≠ [] := by
+        simp [Elem.pathRows, hk]
+      exact listV_lsts _ this
+  refine ⟨hd, ?_⟩
+  simp only [npCall, eval, evalL] at hd ⊢
+  rw [hd, vals_eq_mat ρ e hi]
+  by_cases hk : e.keys = []
+  · simp [hk, car, callV, Elem.pathRows]
+  · simp [hk, car, callV]
+
+/-- **mean / median / std** (vector or matrix, indexed or named): numpy receives exactly the row-major entry list -/
+theorem agg_args (e : Elem) (fn : String) :
+    eval (car O ρ) σ (npCall fn e.display) = .r (O.fn fn (e.vals ρ)) := by
+  cases hi : e.inner.isEmpty with
+  | true => exact agg_args_vec O ρ σ e fn hi
+  | false => exact (agg_args_mat O ρ σ e fn hi).2
+end SemAgg
+
+/-! ## 4. Nested operator operands (`clone_with_index` at every level, `arrayed_term`) -/
+
+/-- the time argument is printable as a call argument (`t`, `t-model.dt`) -/
+def TmOK (tm : Py) : Prop := WLbArg 0 tm = true
+
+theorem tNow_ok : TmOK tNow := by simp [TmOK, tNow, WLbArg]
+theorem tPrev_ok : TmOK tPrev := by simp [TmOK, tPrev, WLbArg, WLb, ldem, rbp, bp]
+
+theorem refT_g6 (tm : Py) (h : TmOK tm) (nm : String) (p : List Key) : G6 (refT tm nm p) := by
+  unfold TmOK at h
+  simp [G6, refT, WLb, WLbArgs, WLbArg, h]
+
+theorem subT_g6 (tm : Py) (h : TmOK tm) (e : Elem) (idx : List Key) (p : Py) (hp : e.subT tm idx = some p) : G6 p := by
+  simp only [Elem.subT, Option.map_eq_some_iff] at hp
+  obtain ⟨q, _, rfl⟩ := hp
+  exact refT_g6 tm h _ _
+
+theorem subEl_g6 (tm : Py) (h : TmOK tm) (x : Ex) (idx : List Key) (p : Py) (hp : x.subEl tm idx = some p) : G6 p := by
+  cases x with
+  | el e => exact subT_g6 tm h e idx p hp
+  | num n l => simp [Ex.subEl] at hp
+  | op f a b => simp [Ex.subEl] at hp
+
+theorem opt2_g6 (f : Py → Py → Py) (hf : ∀ x y, G6 x → G6 y → G6 (f x y)) (ox oy : Option Py)
+    (hx : ∀ x, ox = some x → G6 x) (hy : ∀ y, oy = some y → G6 y) (p : Py) (h : opt2 f ox oy = some p) : G6 p := by
+  cases ox with
+  | none => simp [opt2] at h
+  | some x =>
+    cases oy with
+    | none => simp [opt2] at h
+    | some y =>
+      simp only [opt2, Option.some.injEq] at h
+      subst h
+      exact hf x y (hx x rfl) (hy y rfl)
+
+theorem dotPairsE_ok (fa fb : Nat → Option Py) (l : List Nat)
+    (ha : ∀ k x, fa k = some x → G6 x) (hb : ∀ k y, fb k = some y → G6 y) :
+    ∀ q ∈ l.map (fun k => (fa k, fb k)), (∀ x, q.1 = some x → G6 x) ∧ (∀ y, q.2 = some y → G6 y) := by
+  intro q hq
+  simp only [List.mem_map] at hq
+  obtain ⟨k, _, rfl⟩ := hq
+  exact ⟨fun x hx => ha k x hx, fun y hy => hb k y hy⟩
+
+/-- every term of a (nested) operand tree is well-levelled and usable as an operand of `+ - * /` -/
+theorem Ex.term_g6 (tm : Py) (h : TmOK tm) (x : Ex) : ∀ (I : Option (List Key)) (p : Py), x.term tm I = some p → G6 p := by
+  induction x with
+  | num n l => intro I p hp; simp only [Ex.term, Option.some.injEq] at hp; subst hp; exact numPy_g6 n l
+  | el e => intro I p hp; simp only [Ex.term, Option.some.injEq] at hp; subst hp; exact refT_g6 tm h _ _
+  | op f a b iha ihb =>
+    intro I p hp
+    have hopA : ∀ (c : Bool) idx q, (if c = true then a.subEl tm idx else a.term tm I) = some q → G6 q := by
+      intro c idx q hq
+      split at hq
+      · exact subEl_g6 tm h a idx q hq
+      · exact iha I q hq
+    have hopB : ∀ (c : Bool) idx q, (if c = true then b.subEl tm idx else b.term tm I) = some q → G6 q := by
+      intro c idx q hq
+      split at hq
+      · exact subEl_g6 tm h b idx q hq
+      · exact ihb I q hq
+    cases f with
+    | ew o =>
+      simp only [Ex.term] at hp
+      split at hp
+      · split at hp
+        · simp only [Option.some.injEq] at hp; subst hp; exact num00_g6
+        · exact opt2_g6 _ (ewTmpl_g6 o) _ _ (hopA _ _) (hopB _ _) p hp
+      · exact opt2_g6 _ (ewTmpl_g6 o) _ _ (iha I) (ihb I) p hp
+    | nmul =>
+      simp only [Ex.term] at hp
+      split at hp
+      · split at hp
+        · simp only [Option.some.injEq] at hp; subst hp; exact num00_g6
+        · exact opt2_g6 _ prodTerm_g6 _ _ (hopB _ _) (hopA _ _) p hp
+      · exact opt2_g6 _ prodTerm_g6 _ _ (ihb I) (iha I) p hp
+    | dot =>
+      have hsA : ∀ ix q, (match a with | .el e => e.subT tm ix | _ => a.term tm (some ix)) = some q → G6 q := by
+        intro ix q hq
+        split at hq
+        · exact subT_g6 tm h _ ix q hq
+        · exact iha _ q hq
+      have hsB : ∀ ix q, (match b with | .el e => e.subT tm ix | _ => b.term tm (some ix)) = some q → G6 q := by
+        intro ix q hq
+        split at hq
+        · exact subT_g6 tm h _ ix q hq
+        · exact ihb _ q hq
+      have hch : ∀ (fa fb : Nat → Option Py) (l : List Nat) q,
+          (∀ k x, fa k = some x → G6 x) → (∀ k y, fb k = some y → G6 y) →
+          dotChain (l.map fun k => (fa k, fb k)) = some q → G6 q :=
+        fun fa fb l q ha hb hq => dotChain_wl _ q (dotPairsE_ok fa fb l ha hb) hq
+      simp only [Ex.term] at hp
+      split at hp
+      · split at hp
+        · -- no index
+          split at hp
+          · simp at hp
+          · split at hp
+            · split at hp
+              · simp at hp
+              · split at hp
+                · split at hp
+                  · exact hch _ _ _ p (fun k x => subEl_g6 tm h a _ x) (fun k y => subEl_g6 tm h b _ y) hp
+                  · simp at hp
+                · simp only [Option.some.injEq] at hp; subst hp; exact num00_g6
+            · simp only [Option.some.injEq] at hp; subst hp; exact num00_g6
+        · -- index
+          split at hp
+          · split at hp
+            · simp at hp
+            · exact opt2_g6 _ prodTerm_g6 _ _ (iha _) (fun y => subEl_g6 tm h b _ y) p hp
+          · split at hp
+            · exact opt2_g6 _ prodTerm_g6 _ _ (fun y => subEl_g6 tm h a _ y) (ihb _) p hp
+            · split at hp
+              · split at hp
+                · split at hp
+                  · exact hch _ _ _ p (fun k x => subEl_g6 tm h a _ x) (fun k y => subEl_g6 tm h b _ y) hp
+                  · simp at hp
+                · split at hp
+                  · split at hp
+                    · split at hp
+                      · split at hp
+                        · simp at hp
+                        · exact hch _ _ _ p (fun k x => hsA _ x) (fun k y => hsB _ y) hp
+                      · simp at hp
+                    · simp at hp
+                  · simp at hp
+              · split at hp
+                · split at hp
+                  · split at hp
+                    · split at hp
+                      · split at hp
+                        · simp at hp
+                        · exact hch _ _ _ p (fun k x => hsA _ x) (fun k y => hsB _ y) hp
+                      · simp at hp
+                    · simp at hp
+                  · simp at hp
+                · split at hp
+                  · split at hp
+                    · split at hp
+                      · simp at hp
+                      · exact hch _ _ _ p (fun k x => hsA _ x) (fun k y => hsB _ y) hp
+                    · simp at hp
+                  · simp at hp
+      · simp at hp
+
+/-! ### semantics of nested operands -/
+section Sem2
+open BigOperators
+variable {R : Type} [CommSemiring R]
+variable (O : Ops R) (ρ : String → R) (σ : Nat → V R)
+
+theorem eval_refT (tm : Py) (nm : String) (path : List Key) :
+    eval (car O ρ) σ (refT tm nm path) = .r (rv ρ nm path) := by
+  simp [refT, eval, evalL, car, callV, rv]
+
+/-- the entry of an element at an index: arrays are indexed (stored key path), scalars broadcast -/
+def Elem.valAt (e : Elem) (idx : List Key) : R :=
+  if e.arrayed then (match e.path idx with | some p => rv ρ e.name p | none => 0) else rv ρ e.name []
+
+/-- numpy's `dot` on values given pointwise, by the operands' dimensions: a scalar operand multiplies every
+entry; vector·vector, vector·matrix, matrix·vector and matrix·matrix are the sums over the shared axis -/
+def dotVal (d1 d2 : Dims) (A B : List Key → R) (idx : List Key) : R :=
+  if d1 = .val ∨ d2 = .val then A idx * B idx
+  else if d1.isVec then
+    if d2.isVec then ∑ k ∈ Finset.range d1.rows, A [.i k] * B [.i k]
+    else ∑ k ∈ Finset.range d1.rows, A [.i k] * B [.i k, idx.headD (.i 0)]
+  else if d2.isVec then ∑ k ∈ Finset.range d1.snd, A [idx.headD (.i 0), .i k] * B [.i k]
+  else ∑ k ∈ Finset.range d1.snd, A [idx.headD (.i 0), .i k] * B [.i k, idx.getD 1 (.i 0)]
+
+/-- **the numpy meaning of an operand tree**, entry by entry: element-wise operators act entry-wise with
+scalars broadcast, `dot` sums over the shared axis — by structural recursion over the tree -/
+def Ex.valD : Ex → List Key → R
+  | .num n l, _ => numVal O n l
+  | .el e, idx => e.valAt ρ idx
+  | .op (.ew o) a b, idx => ewVal O o (a.valD idx) (b.valD idx)
+  | .op .nmul a b, idx => b.valD idx * a.valD idx
+  | .op .dot a b, idx =>
+    dotVal (a.dims.getD .val) (b.dims.getD .val) (fun ix => a.valD ix) (fun ix => b.valD ix) idx
+
+theorem path_nonarr (e : Elem) (h : e.arrayed = false) (ix pth : List Key) (hp : e.path ix = some pth) : pth = [] := by
+  unfold Elem.path at hp
+  split at hp
+  · simpa using hp.symm
+  · simp [h] at hp
+  · simp [h] at hp
+  · simp at hp
+
+theorem subT_eval (tm : Py) (e : Elem) (ix : List Key) (q : Py) (h : e.subT tm ix = some q) :
+    eval (car O ρ) σ q = .r (e.valAt ρ ix) := by
+  simp only [Elem.subT, Option.map_eq_some_iff] at h
+  obtain ⟨pth, hp, rfl⟩ := h
+  rw [eval_refT]
+  cases ha : e.arrayed with
+  | true => simp [Elem.valAt, ha, hp]
+  | false => simp [Elem.valAt, ha, path_nonarr e ha ix pth hp]
+
+theorem subEl_eval (tm : Py) (x : Ex) (ix : List Key) (q : Py) (h : x.subEl tm ix = some q) :
+    eval (car O ρ) σ q = .r (x.valD O ρ ix) := by
+  cases x with
+  | el e => simpa [Ex.valD] using subT_eval O ρ σ tm e ix q h
+  | num n l => simp [Ex.subEl] at h
+  | op f a b => simp [Ex.subEl] at h
+
+theorem opt2_eval (f : Py → Py → Py) (g : R → R → R)
+    (hf : ∀ x y vx vy, eval (car O ρ) σ x = .r vx → eval (car O ρ) σ y = .r vy → eval (car O ρ) σ (f x y) = .r (g vx vy))
+    (ox oy : Option Py) (vx vy : R)
+    (hx : ∀ x, ox = some x → eval (car O ρ) σ x = .r vx) (hy : ∀ y, oy = some y → eval (car O ρ) σ y = .r vy)
+    (p : Py) (h : opt2 f ox oy = some p) : eval (car O ρ) σ p = .r (g vx vy) := by
+  cases ox with
+  | none => simp [opt2] at h
+  | some x =>
+    cases oy with
+    | none => simp [opt2] at h
+    | some y =>
+      simp only [opt2, Option.some.injEq] at h
+      subst h
+      exact hf x y vx vy (hx x rfl) (hy y rfl)
+
+theorem optAll_map_some' {α β} (l : List α) (f : α → Option β) (ps : List β) (h : optAll (l.map f) = some ps) :
+    ∀ k ∈ l, ∃ v, f k = some v := by
+  induction l generalizing ps with
+  | nil => intro k hk; simp at hk
+  | cons a l ih =>
+    cases hf : f a with
+    | none => simp [optAll, hf] at h
+    | some v =>
+      simp only [List.map_cons, hf, optAll, Option.map_eq_some_iff] at h
+      obtain ⟨ys, hys, _⟩ := h
+      intro k hk
+      simp only [List.mem_cons] at hk
+      rcases hk with rfl | hk
+      · exact ⟨v, hf⟩
+      · exact ih ys hys k hk
+
+/-- a produced dot chain evaluates to the sum of the products of what its parts evaluate to -/
+theorem dotChain_spec (n : Nat) (fa fb : Nat → Option Py) (ga gb : Nat → R) (e : Py)
+    (ha : ∀ k < n, ∀ x, fa k = some x → eval (car O ρ) σ x = .r (ga k))
+    (hb : ∀ k < n, ∀ y, fb k = some y → eval (car O ρ) σ y = .r (gb k))
+    (h : dotChain ((List.range n).map fun k => (fa k, fb k)) = some e) :
+    eval (car O ρ) σ e = .r (∑ k ∈ Finset.range n, ga k * gb k) := by
+  have hn : 0 < n := by
+    rcases Nat.eq_zero_or_pos n with rfl | hpos
+    · simp [dotChain, optAll, chain] at h
+    · exact hpos
+  have hall : ∀ k < n, ∃ x y, fa k = some x ∧ fb k = some y := by
+    intro k hk
+    unfold dotChain at h
+    split at h
+    next ps hps =>
+      rw [List.map_map] at hps
+      obtain ⟨v, hv⟩ := optAll_map_some' _ _ ps hps k (List.mem_range.mpr hk)
+      simp only [Function.comp] at hv
+      cases hx : fa k with
+      | none => simp [hx, pairProd] at hv
+      | some x =>
+        cases hy : fb k with
+        | none => simp [hx, hy, pairProd] at hv
+        | some y => exact ⟨x, y, rfl, rfl⟩
+    next => simp at h
+  obtain ⟨e', he', hev⟩ := dotChain_eval O ρ σ n hn fa fb
+    (fun k => (fa k).getD (.num "0")) (fun k => (fb k).getD (.num "0")) ga gb
+    (fun k hk => by obtain ⟨x, y, hx, _⟩ := hall k hk; simp [hx])
+    (fun k hk => by obtain ⟨x, y, _, hy⟩ := hall k hk; simp [hy])
+    (fun k hk => by obtain ⟨x, y, hx, _⟩ := hall k hk; simpa [hx] using ha k hk x hx)
+    (fun k hk => by obtain ⟨x, y, _, hy⟩ := hall k hk; simpa [hy] using hb k hk y hy)
+  rw [he'] at h
+  simp only [Option.some.injEq] at h
+  subst h
+  exact hev
+
+omit [CommSemiring R] in
+theorem resolveEwD_val (d1 d2 : Dims) (h : resolveEwD d1 d2 = some .val) : d1 = .val ∧ d2 = .val := by
+  unfold resolveEwD at h
+  by_cases h1 : d1 = .val <;> by_cases h2 : d2 = .val <;> simp_all
+
+theorem arrEl_dims (a : Ex) (h : a.arrEl = true) : ∃ m n, a.dims = some (.d2 m n) := by
+  cases a with
+  | el e => simp only [Ex.arrEl] at h; exact ⟨e.keys.length, e.inner.length, by simp [Ex.dims, elemDims, h]⟩
+  | num n l => simp [Ex.arrEl] at h
+  | op f a b => simp [Ex.arrEl] at h
+
+
+theorem notArr_of_val (a : Ex) (h : a.dims = some .val) : a.arrEl = false := by
+  cases hc : a.arrEl with
+  | false => rfl
+  | true => obtain ⟨m, n, hd⟩ := arrEl_dims a hc; rw [hd] at h; simp at h
+
+theorem eval_prodTerm' (x y : Py) (vx vy : R) (hx : eval (car O ρ) σ x = .r vx)
+    (hy : eval (car O ρ) σ y = .r vy) : eval (car O ρ) σ (prodTerm x y) = .r (vx * vy) :=
+  eval_prodTerm O ρ σ x y vx vy hx hy
+
+/-- **nested operands** (`clone_with_index` at every level, `arrayed_term` of the dot product): the term
+of the clone of ANY operand tree carrying index `idx` evaluates to the numpy entry `valD x idx`; without an
+index (scalar-valued trees) to `valD x []`.  Structural induction over the operand tree. -/
+theorem nested_spec (tm : Py) (x : Ex) :
+    (∀ idx p, x.arrEl = false → x.term tm (some idx) = some p →
+      eval (car O ρ) σ p = .r (x.valD O ρ idx)) ∧
+    (∀ p, x.arrEl = false → x.dims = some .val → x.term tm none = some p →
+      eval (car O ρ) σ p = .r (x.valD O ρ [])) := by
+  induction x with
+  | num n l =>
+    refine ⟨fun idx p _ hp => ?_, fun p _ _ hp => ?_⟩ <;>
+    · simp only [Ex.term, Option.some.injEq] at hp; subst hp
+      simpa [Ex.valD] using eval_numPy O ρ σ n l
+  | el e =>
+    refine ⟨fun idx p ha hp => ?_, fun p ha _ hp => ?_⟩ <;>
+    · simp only [Ex.arrEl] at ha
+      simp only [Ex.term, Option.some.injEq] at hp; subst hp
+      rw [eval_refT]; simp [Ex.valD, Elem.valAt, ha]
+  | op f a b iha ihb =>
+    have hopA : ∀ idx q, (if a.arrEl = true then a.subEl tm idx else a.term tm (some idx)) = some q →
+        eval (car O ρ) σ q = .r (a.valD O ρ idx) := by
+      intro idx q hq
+      by_cases hc : a.arrEl = true
+      · rw [if_pos hc] at hq; exact subEl_eval O ρ σ tm a idx q hq
+      · rw [if_neg hc] at hq; exact iha.1 idx q (by simpa using hc) hq
+    have hopB : ∀ idx q, (if b.arrEl = true then b.subEl tm idx else b.term tm (some idx)) = some q →
+        eval (car O ρ) σ q = .r (b.valD O ρ idx) := by
+      intro idx q hq
+      by_cases hc : b.arrEl = true
+      · rw [if_pos hc] at hq; exact subEl_eval O ρ σ tm b idx q hq
+      · rw [if_neg hc] at hq; exact ihb.1 idx q (by simpa using hc) hq
+    have hsA : ∀ ix q, (match a with | .el e => e.subT tm ix | _ => a.term tm (some ix)) = some q →
+        eval (car O ρ) σ q = .r (a.valD O ρ ix) := by
+      intro ix q hq
+      cases a with
+      | el e => simpa [Ex.valD] using subT_eval O ρ σ tm e ix q hq
+      | num n l => exact iha.1 ix q rfl hq
+      | op g c d => exact iha.1 ix q rfl hq
+    have hsB : ∀ ix q, (match b with | .el e => e.subT tm ix | _ => b.term tm (some ix)) = some q →
+        eval (car O ρ) σ q = .r (b.valD O ρ ix) := by
+      intro ix q hq
+      cases b with
+      | el e => simpa [Ex.valD] using subT_eval O ρ σ tm e ix q hq
+      | num n l => exact ihb.1 ix q rfl hq
+      | op g c d => exact ihb.1 ix q rfl hq
+    cases f with
+    | ew o =>
+      constructor
+      · intro idx p _ hp
+        simp only [Ex.term] at hp
+        split at hp
+        · exact opt2_eval O ρ σ _ (ewVal O o) (eval_ewTmpl O ρ σ o) _ _ _ _ (hopA idx) (hopB idx) p hp
+        · next hc =>
+          have hc' : a.arrEl = false ∧ b.arrEl = false := by simpa using hc
+          exact opt2_eval O ρ σ _ (ewVal O o) (eval_ewTmpl O ρ σ o) _ _ _ _
+            (fun x hx => iha.1 idx x hc'.1 hx) (fun y hy => ihb.1 idx y hc'.2 hy) p hp
+      · intro p _ hd hp
+        simp only [Ex.dims] at hd
+        cases hda : a.dims with
+        | none => simp [hda] at hd
+        | some d1 =>
+          cases hdb : b.dims with
+          | none => simp [hda, hdb] at hd
+          | some d2 =>
+            simp only [hda, hdb] at hd
+            obtain ⟨h1, h2⟩ := resolveEwD_val _ _ hd
+            subst h1; subst h2
+            have haE := notArr_of_val a hda
+            have hbE := notArr_of_val b hdb
+            simp only [Ex.term, haE, hbE, Bool.or_self, Bool.false_eq_true, if_false] at hp
+            exact opt2_eval O ρ σ _ (ewVal O o) (eval_ewTmpl O ρ σ o) _ _ _ _
+              (fun x hx => iha.2 x haE hda hx) (fun y hy => ihb.2 y hbE hdb hy) p hp
+    | nmul =>
+      constructor
+      · intro idx p _ hp
+        simp only [Ex.term] at hp
+        split at hp
+        · exact opt2_eval O ρ σ _ (· * ·) (eval_prodTerm' O ρ σ) _ _ _ _ (hopB idx) (hopA idx) p hp
+        · next hc =>
+          have hc' : a.arrEl = false ∧ b.arrEl = false := by simpa using hc
+          exact opt2_eval O ρ σ _ (· * ·) (eval_prodTerm' O ρ σ) _ _ _ _
+            (fun y hy => ihb.1 idx y hc'.2 hy) (fun x hx => iha.1 idx x hc'.1 hx) p hp
+      · intro p _ hd hp
+        simp only [Ex.dims] at hd
+        cases hda : a.dims with
+        | none => simp [hda] at hd
+        | some d1 =>
+          cases hdb : b.dims with
+          | none => simp [hda, hdb] at hd
+          | some d2 =>
+            simp only [hda, hdb] at hd
+            obtain ⟨h1, h2⟩ := resolveEwD_val _ _ hd
+            subst h1; subst h2
+            have haE := notArr_of_val a hda
+            have hbE := notArr_of_val b hdb
+            simp only [Ex.term, haE, hbE, Bool.or_self, Bool.false_eq_true, if_false] at hp
+            exact opt2_eval O ρ σ _ (· * ·) (eval_prodTerm' O ρ σ) _ _ _ _
+              (fun y hy => ihb.2 y hbE hdb hy) (fun x hx => iha.2 x haE hda hx) p hp
+    | dot =>
+      have hchain : ∀ (n : Nat) (fa fb : Nat → Option Py) (ga gb : Nat → R) (e : Py),
+          (∀ k, ∀ x, fa k = some x → eval (car O ρ) σ x = .r (ga k)) →
+          (∀ k, ∀ y, fb k = some y → eval (car O ρ) σ y = .r (gb k)) →
+          dotChain ((List.range n).map fun k => (fa k, fb k)) = some e →
+          eval (car O ρ) σ e = .r (∑ k ∈ Finset.range n, ga k * gb k) :=
+        fun n fa fb ga gb e ha hb h => dotChain_spec O ρ σ n fa fb ga gb e (fun k _ => ha k) (fun k _ => hb k) h
+      constructor
+      · intro idx p _ hp
+        simp only [Ex.term] at hp
+        cases hda : a.dims with
+        | none => simp [hda] at hp
+        | some d1 =>
+          cases hdb : b.dims with
+          | none => simp [hda, hdb] at hp
+          | some d2 =>
+            simp only [hda, hdb] at hp
+            have hv : (Ex.op .dot a b).valD O ρ idx
+                = dotVal d1 d2 (fun ix => a.valD O ρ ix) (fun ix => b.valD O ρ ix) idx := by
+              simp [Ex.valD, hda, hdb]
+            rw [hv]
+            by_cases h1 : d1 = .val
+            · subst h1
+              by_cases h2 : d2 = .val
+              · subst h2; simp at hp
+              · simp only [if_true, h2, if_false] at hp
+                have haE := notArr_of_val a hda
+                have := opt2_eval O ρ σ _ (· * ·) (eval_prodTerm' O ρ σ) _ _ _ _
+                  (fun x hx => iha.1 idx x haE hx) (fun y hy => subEl_eval O ρ σ tm b idx y hy) p hp
+                simpa [dotVal] using this
+            · by_cases h2 : d2 = .val
+              · subst h2
+                simp only [h1, if_false, if_true] at hp
+                have hbE := notArr_of_val b hdb
+                have := opt2_eval O ρ σ _ (· * ·) (eval_prodTerm' O ρ σ) _ _ _ _
+                  (fun x hx => subEl_eval O ρ σ tm a idx x hx) (fun y hy => ihb.1 idx y hbE hy) p hp
+                simpa [dotVal] using this
+              · simp only [h1, h2, if_false] at hp
+                by_cases hv1 : d1.isVec = true
+                · by_cases hv2 : d2.isVec = true
+                  · simp only [hv1, hv2, if_true] at hp
+                    split at hp
+                    · have := hchain _ _ _ (fun k => a.valD O ρ [.i k]) (fun k => b.valD O ρ [.i k]) p
+                        (fun k x hx => subEl_eval O ρ σ tm a _ x hx) (fun k y hy => subEl_eval O ρ σ tm b _ y hy) hp
+                      simpa [dotVal, h1, h2, hv1, hv2] using this
+                    · simp at hp
+                  · simp only [hv1, hv2, if_true, Bool.false_eq_true, if_false] at hp
+                    split at hp
+                    · next hr =>
+                      split at hp
+                      · next j rest =>
+                        split at hp
+                        · next jn hj =>
+                          split at hp
+                          · simp at hp
+                          · have := hchain _ _ _ (fun k => a.valD O ρ [.i k]) (fun k => b.valD O ρ [.i k, j]) p
+                              (fun k x hx => hsA _ x hx) (fun k y hy => hsB _ y hy) hp
+                            simpa [dotVal, h1, h2, hv1, hv2, hr] using this
+                        · simp at hp
+                      · simp at hp
+                    · simp at hp
+                · by_cases hv2 : d2.isVec = true
+                  · simp only [hv1, hv2, if_true, Bool.false_eq_true, if_false] at hp
+                    split at hp
+                    · split at hp
+                      · next i rest =>
+                        split at hp
+                        · split at hp
+                          · simp at hp
+                          · have := hchain _ _ _ (fun k => a.valD O ρ [i, .i k]) (fun k => b.valD O ρ [.i k]) p
+                              (fun k x hx => hsA _ x hx) (fun k y hy => hsB _ y hy) hp
+                            simpa [dotVal, h1, h2, hv1, hv2] using this
+                        · simp at hp
+                      · simp at hp
+                    · simp at hp
+                  · simp only [hv1, hv2, Bool.false_eq_true, if_false] at hp
+                    split at hp
+                    · next i j =>
+                      split at hp
+                      · split at hp
+                        · simp at hp
+                        · have := hchain _ _ _ (fun k => a.valD O ρ [i, .i k]) (fun k => b.valD O ρ [.i k, j]) p
+                            (fun k x hx => hsA _ x hx) (fun k y hy => hsB _ y hy) hp
+                          simpa [dotVal, h1, h2, hv1, hv2] using this
+                      · simp at hp
+                    · simp at hp
+      · intro p _ hd hp
+        simp only [Ex.dims] at hd
+        simp only [Ex.term] at hp
+        cases hda : a.dims with
+        | none => simp [hda] at hp
+        | some d1 =>
+          cases hdb : b.dims with
+          | none => simp [hda, hdb] at hp
+          | some d2 =>
+            simp only [hda, hdb] at hp hd
+            have hv : (Ex.op .dot a b).valD O ρ []
+                = dotVal d1 d2 (fun ix => a.valD O ρ ix) (fun ix => b.valD O ρ ix) [] := by
+              simp [Ex.valD, hda, hdb]
+            rw [hv]
+            by_cases h1 : d1 = .val
+            · subst h1; simp at hp
+            · by_cases hv1 : d1.isVec = true
+              · by_cases h2 : d2 = .val
+                · subst h2; simp [h1, hv1] at hp
+                · by_cases hv2 : d2.isVec = true
+                  · simp only [h1, h2, hv1, hv2, if_true, if_false] at hp
+                    split at hp
+                    · have := hchain _ _ _ (fun k => a.valD O ρ [.i k]) (fun k => b.valD O ρ [.i k]) p
+                        (fun k x hx => subEl_eval O ρ σ tm a _ x hx) (fun k y hy => subEl_eval O ρ σ tm b _ y hy) hp
+                      simpa [dotVal, h1, h2, hv1, hv2] using this
+                    · simp at hp
+                  · -- "0.0" but then the resolved dimensions are not -1
+                    exfalso
+                    simp [resolveDotD, h1, h2, hv1, hv2] at hd
+              · exfalso
+                simp [resolveDotD, h1, hv1] at hd
+                by_cases h2 : d2 = .val
+                · simp [h2] at hd; exact h1 hd
+                · simp [h2] at hd
+                  split at hd
+                  · split at hd <;> simp at hd
+                  · split at hd <;> simp at hd
+
+
+/-! ### the numpy meaning in Mathlib's terms -/
+
+omit [CommSemiring R] in
+theorem isVec_d2 (m n : Nat) (hn : n ≠ 0) : (Dims.d2 m n).isVec = false := by
+  cases n with
+  | zero => exact absurd rfl hn
+  | succ n => rfl
+
+/-- entries of a matrix- / vector-valued operand tree as Mathlib objects -/
+def Ex.matD (x : Ex) (m n : Nat) : Matrix (Fin m) (Fin n) R := fun i j => x.valD O ρ [.i i.val, .i j.val]
+def Ex.vecD (x : Ex) (m : Nat) : Fin m → R := fun i => x.valD O ρ [.i i.val]
+
+/-- element-wise operators act entry by entry on the operands' entries (scalars broadcast), at every level -/
+theorem valD_ew (o : EwOp) (a b : Ex) (idx : List Key) :
+    (Ex.op (.ew o) a b).valD O ρ idx = ewVal O o (a.valD O ρ idx) (b.valD O ρ idx) := rfl
+
+theorem valD_nmul (a b : Ex) (idx : List Key) :
+    (Ex.op .nmul a b).valD O ρ idx = b.valD O ρ idx * a.valD O ρ idx := rfl
+
+/-- matrix·matrix of arbitrary operand trees = `Matrix.mul` of their entry matrices -/
+theorem valD_dot_mm (a b : Ex) (m n p : Nat) (hn : n ≠ 0) (hp : p ≠ 0)
+    (ha : a.dims = some (.d2 m n)) (hb : b.dims = some (.d2 n p)) (i : Fin m) (j : Fin p) :
+    (Ex.op .dot a b).valD O ρ [.i i, .i j] = (a.matD O ρ m n * b.matD O ρ n p) i j := by
+  have hL : (Ex.op .dot a b).valD O ρ [.i i, .i j]
+      = ∑ k ∈ Finset.range n, a.valD O ρ [.i i, .i k] * b.valD O ρ [.i k, .i j] := by
+    simp [Ex.valD, ha, hb, dotVal, isVec_d2 m n hn, isVec_d2 n p hp, Dims.snd]
+  rw [hL, Matrix.mul_apply, Finset.sum_range]
+  rfl
+
+/-- matrix·vector = `Matrix.mulVec` (the vector operand may report `[n, 0]` or `[n]`) -/
+theorem valD_dot_mv (a b : Ex) (m n : Nat) (d : Dims) (hn : n ≠ 0) (hd : d.isVec = true)
+    (ha : a.dims = some (.d2 m n)) (hb : b.dims = some d) (i : Fin m) :
+    (Ex.op .dot a b).valD O ρ [.i i] = Matrix.mulVec (a.matD O ρ m n) (b.vecD O ρ n) i := by
+  have hdv : d ≠ .val := by intro h; subst h; simp [Dims.isVec] at hd
+  have hL : (Ex.op .dot a b).valD O ρ [.i i]
+      = ∑ k ∈ Finset.range n, a.valD O ρ [.i i, .i k] * b.valD O ρ [.i k] := by
+    simp [Ex.valD, ha, hb, dotVal, isVec_d2 m n hn, hd, hdv, Dims.snd]
+  rw [hL, Matrix.mulVec, dotProduct, Finset.sum_range]
+  rfl
+
+/-- vector·matrix = `Matrix.vecMul` -/
+theorem valD_dot_vm (a b : Ex) (m n : Nat) (d : Dims) (hn : n ≠ 0) (hd : d.isVec = true) (hr : d.rows = m)
+    (ha : a.dims = some d) (hb : b.dims = some (.d2 m n)) (j : Fin n) :
+    (Ex.op .dot a b).valD O ρ [.i j] = Matrix.vecMul (a.vecD O ρ m) (b.matD O ρ m n) j := by
+  have hdv : d ≠ .val := by intro h; subst h; simp [Dims.isVec] at hd
+  have hL : (Ex.op .dot a b).valD O ρ [.i j]
+      = ∑ k ∈ Finset.range m, a.valD O ρ [.i k] * b.valD O ρ [.i k, .i j] := by
+    simp [Ex.valD, ha, hb, dotVal, isVec_d2 m n hn, hd, hdv, hr]
+  rw [hL, Matrix.vecMul, dotProduct, Finset.sum_range]
+  rfl
+
+/-- vector·vector = `dotProduct` -/
+theorem valD_dot_vv (a b : Ex) (m : Nat) (d d' : Dims) (hd : d.isVec = true) (hd' : d'.isVec = true)
+    (hr : d.rows = m) (ha : a.dims = some d) (hb : b.dims = some d') (idx : List Key) :
+    (Ex.op .dot a b).valD O ρ idx = dotProduct (a.vecD O ρ m) (b.vecD O ρ m) := by
+  have hdv : d ≠ .val := by intro h; subst h; simp [Dims.isVec] at hd
+  have hdv' : d' ≠ .val := by intro h; subst h; simp [Dims.isVec] at hd'
+  have hL : (Ex.op .dot a b).valD O ρ idx
+      = ∑ k ∈ Finset.range m, a.valD O ρ [.i k] * b.valD O ρ [.i k] := by
+    simp [Ex.valD, ha, hb, dotVal, hd, hd', hdv, hdv', hr]
+  rw [hL, dotProduct, Finset.sum_range]
+  rfl
+
+/-! ### what `expandE` distributes are the per-index terms -/
+
+omit [CommSemiring R] in
+theorem matEntriesE_entry (tm : Py) (x : Ex) (m n : Nat) (rows : List (List Py))
+    (h : matEntriesE tm x m n = some rows) (i j : Nat) (row : List Py) (p : Py)
+    (hr : rows[i]? = some row) (hp : row[j]? = some p) : x.term tm (some [.i i, .i j]) = some p := by
+  have h1 := optAll_range m _ rows h i row hr
+  exact optAll_range n _ row h1 j p hp
+
+omit [CommSemiring R] in
+theorem vecEntriesE_entry (tm : Py) (f : Form) (a b : Ex) (nm : Bool) (m : Nat) (es : List (Key × Py))
+    (h : vecEntriesE tm f a b nm m = some es) (i : Nat) (kp : Key × Py) (hk : es[i]? = some kp) :
+    vecIndexE f a b nm i = some kp.1 ∧ (Ex.op f a b).term tm (some [kp.1]) = some kp.2 := by
+  have h1 := optAll_range m _ es h i kp hk
+  split at h1
+  · next k hk' =>
+    simp only [Option.map_eq_some_iff] at h1
+    obtain ⟨p, hp, rfl⟩ := h1
+    exact ⟨hk', hp⟩
+  · simp at h1
+
+omit [CommSemiring R] in
+theorem dims_noArr (x : Ex) : x.anyArr = false → ∀ d, x.dims = some d → d = .val := by
+  induction x with
+  | num n l => intro _ d h; simpa [Ex.dims] using h.symm
+  | el e => intro ha d h; simp only [Ex.anyArr] at ha; simp [Ex.dims, elemDims, ha] at h; exact h.symm
+  | op f a b iha ihb =>
+    intro ha d h
+    simp only [Ex.anyArr, Bool.or_eq_false_iff] at ha
+    simp only [Ex.dims] at h
+    cases hda : a.dims with
+    | none => simp [hda] at h
+    | some d1 =>
+      cases hdb : b.dims with
+      | none => simp [hda, hdb] at h
+      | some d2 =>
+        have e1 := iha ha.1 d1 hda
+        have e2 := ihb ha.2 d2 hdb
+        subst e1; subst e2
+        simp only [hda, hdb] at h
+        cases f <;> simp [resolveDotD, resolveEwD] at h <;> exact h.symm
+
+omit [CommSemiring R] in
+theorem term_none_dims (tm : Py) (x : Ex) : x.anyArr = false → ∀ p, x.term tm none = some p → x.dims = some .val := by
+  induction x with
+  | num n l => intro _ p _; rfl
+  | el e => intro ha p _; simp only [Ex.anyArr] at ha; simp [Ex.dims, elemDims, ha]
+  | op f a b iha ihb =>
+    intro ha p hp
+    simp only [Ex.anyArr, Bool.or_eq_false_iff] at ha
+    have haE : a.arrEl = false := by cases a <;> simp_all [Ex.arrEl, Ex.anyArr]
+    have hbE : b.arrEl = false := by cases b <;> simp_all [Ex.arrEl, Ex.anyArr]
+    cases f with
+    | ew o =>
+      simp only [Ex.term, haE, hbE, Bool.or_self, Bool.false_eq_true, if_false] at hp
+      cases hta : a.term tm none with
+      | none => simp [hta, opt2] at hp
+      | some pa =>
+        cases htb : b.term tm none with
+        | none => simp [hta, htb, opt2] at hp
+        | some pb => simp [Ex.dims, iha ha.1 pa hta, ihb ha.2 pb htb, resolveEwD]
+    | nmul =>
+      simp only [Ex.term, haE, hbE, Bool.or_self, Bool.false_eq_true, if_false] at hp
+      cases hta : a.term tm none with
+      | none => simp [hta, opt2] at hp
+      | some pa =>
+        cases htb : b.term tm none with
+        | none => simp [hta, htb, opt2] at hp
+        | some pb => simp [Ex.dims, iha ha.1 pa hta, ihb ha.2 pb htb, resolveEwD]
+    | dot =>
+      simp only [Ex.term] at hp
+      cases hda : a.dims with
+      | none => simp [hda] at hp
+      | some d1 =>
+        cases hdb : b.dims with
+        | none => simp [hda, hdb] at hp
+        | some d2 =>
+          have e1 := dims_noArr a ha.1 d1 hda
+          subst e1
+          simp [hda, hdb] at hp
+
+/-- **expansion of a nested equation** (`_handle_arrayed`, generic branch): every entry the expansion
+assigns evaluates to the numpy entry of the whole operand tree at that index. -/
+theorem expandE_spec (tm : Py) (x : Ex) (r : Result) (h : expandE tm x = some r) :
+    (∀ p, r = .scalar p → eval (car O ρ) σ p = .r (x.valD O ρ [])) ∧
+    (∀ nm es, r = .vector nm es → ∀ kp ∈ es, eval (car O ρ) σ kp.2 = .r (x.valD O ρ [kp.1])) ∧
+    (∀ rows, r = .matrix rows → ∀ i j row p, rows[i]? = some row → row[j]? = some p →
+      eval (car O ρ) σ p = .r (x.valD O ρ [.i i, .i j])) := by
+  cases x with
+  | num n l => simp [expandE] at h
+  | el e => simp [expandE] at h
+  | op f a b =>
+    have hE : (Ex.op f a b).arrEl = false := rfl
+    have hs := nested_spec O ρ σ tm (Ex.op f a b)
+    simp only [expandE] at h
+    split at h
+    · simp at h
+    · split at h
+      · next hna =>
+        simp only [Option.map_eq_some_iff] at h
+        obtain ⟨p, hp, rfl⟩ := h
+        have hd := term_none_dims tm (Ex.op f a b) (by simpa using hna) p hp
+        refine ⟨fun q hq => ?_, fun nm es hq => by simp at hq, fun rows hq => by simp at hq⟩
+        simp only [Result.scalar.injEq] at hq; subst hq
+        exact hs.2 p hE hd hp
+      · split at h
+        · simp at h
+        · next hd =>
+          simp only [Option.map_eq_some_iff] at h
+          obtain ⟨p, hp, rfl⟩ := h
+          refine ⟨fun q hq => ?_, fun nm es hq => by simp at hq, fun rows hq => by simp at hq⟩
+          simp only [Result.scalar.injEq] at hq; subst hq
+          exact hs.2 p hE hd hp
+        · split at h
+          · split at h
+            · simp at h
+            · simp only [Option.map_eq_some_iff] at h
+              obtain ⟨es, hes, rfl⟩ := h
+              refine ⟨fun q hq => by simp at hq, fun nm es' hq kp hkp => ?_, fun rows hq => by simp at hq⟩
+              simp only [Result.vector.injEq] at hq
+              obtain ⟨_, rfl⟩ := hq
+              obtain ⟨i, hi⟩ := List.getElem?_of_mem hkp
+              have := (vecEntriesE_entry tm f a b _ _ es hes i kp hi).2
+              exact hs.1 [kp.1] kp.2 hE this
+          · split at h
+            · simp only [Option.map_eq_some_iff] at h
+              obtain ⟨rows, hrows, rfl⟩ := h
+              refine ⟨fun q hq => by simp at hq, fun nm es hq => by simp at hq, fun rows' hq i j row p hr hp => ?_⟩
+              simp only [Result.matrix.injEq] at hq; subst hq
+              exact hs.1 _ p hE (matEntriesE_entry tm _ _ _ rows hrows i j row p hr hp)
+            · simp at h
+
+
+/-! ### Stock targets -/
+
+/-- what the Stock branch assigns: each listed sub-stock is the one stored under the index the flow term
+was cloned with, and the flow evaluates to the numpy entry of the operand tree at that index -/
+theorem stockAssign_spec (s : Elem) (x : Ex) (l : List (List Key × Py)) (h : stockAssign s x = some l) :
+    ∀ e ∈ l, G6 e.2 ∧ ∃ idx, s.path idx = some e.1 ∧ eval (car O ρ) σ e.2 = .r (x.valD O ρ idx) := by
+  cases x with
+  | num n l' => simp [stockAssign] at h
+  | el e => simp [stockAssign] at h
+  | op f a b =>
+    have hE : (Ex.op f a b).arrEl = false := rfl
+    have hs := nested_spec O ρ σ tPrev (Ex.op f a b)
+    have hg := Ex.term_g6 tPrev tPrev_ok (Ex.op f a b)
+    simp only [stockAssign] at h
+    split at h
+    · simp at h
+    · next hws =>
+      have hsa : s.arrayed = true := by
+        cases hc : s.arrayed with
+        | true => rfl
+        | false => simp [hc] at hws
+      split at h
+      · next hna =>
+        simp only [Option.map_eq_some_iff] at h
+        obtain ⟨p, hp, rfl⟩ := h
+        intro e he
+        simp only [List.mem_singleton] at he; subst he
+        have hd := term_none_dims tPrev (Ex.op f a b) (by simpa using hna) p hp
+        exact ⟨hg none p hp, [], rfl, hs.2 p hE hd hp⟩
+      · split at h
+        · simp at h
+        · next hd =>
+          simp only [Option.map_eq_some_iff] at h
+          obtain ⟨p, hp, rfl⟩ := h
+          intro e he
+          simp only [List.mem_singleton] at he; subst he
+          exact ⟨hg none p hp, [], rfl, hs.2 p hE hd hp⟩
+        · split at h
+          · split at h
+            · simp at h
+            · intro e he
+              have hmem := optAll_mem _ _ h e he
+              simp only [List.mem_map] at hmem
+              obtain ⟨i, _, hi⟩ := hmem
+              split at hi
+              · next k hk =>
+                split at hi
+                · next k' p hk' hp =>
+                  simp only [Option.some.injEq] at hi; subst hi
+                  refine ⟨hg _ p hp, [k], ?_, hs.1 [k] p hE hp⟩
+                  simp [Elem.path, hsa, hk']
+                · simp at hi
+              · simp at hi
+          · split at h
+            · simp only [Option.map_eq_some_iff] at h
+              obtain ⟨rows, hrows, rfl⟩ := h
+              intro e he
+              simp only [List.mem_flatten] at he
+              obtain ⟨row, hrow, he⟩ := he
+              have hmem := optAll_mem _ _ hrows row hrow
+              simp only [List.mem_map] at hmem
+              obtain ⟨i, _, hi⟩ := hmem
+              have hmem2 := optAll_mem _ _ hi e he
+              simp only [List.mem_map] at hmem2
+              obtain ⟨j, _, hj⟩ := hmem2
+              split at hj
+              · next pth p hpth hp =>
+                simp only [Option.some.injEq] at hj; subst hj
+                exact ⟨hg _ p hp, [.i i, .i j], hpth, hs.1 _ p hE hp⟩
+              · simp at hj
+            · simp at h
+
+end Sem2
+
+/-- the stock function string around a well-levelled initial value and flow is well-levelled … -/
+theorem stockFs_wl (nm : String) (init p : Py) (hi : WLb 0 init = true) (hp : WLb 0 p = true) :
+    WLb 0 (stockFs nm init (some p)) = true := by
+  have := (refT_g6 tPrev tPrev_ok nm []).1
+  simp [stockFs, WLb, hi, hp, this, ldem, rbp, bp]
+
+/-- … hence parses back (CPython precedence) to the conditional `init if t <= starttime else prev + dt*(flow)` -/
+theorem stockFs_parses (nm : String) (init p : Py) (hi : WLb 0 init = true) (hp : WLb 0 p = true) :
+    Parses (pr (stockFs nm init (some p))) (stockFs nm init (some p)) :=
+  parse_print _ (stockFs_wl nm init p hi hp)
+
+/-- every flow reference the element branch assigns is a reference to a sub-element of `e` at `t-model.dt` -/
+theorem stockAssignEl_refs (s e : Elem) (l : List (List Key × Py)) (h : stockAssignEl s e = some l) :
+    ∀ q ∈ l, ∃ pe, q.2 = refT tPrev e.name pe := by
+  simp only [stockAssignEl] at h
+  split at h
+  · simp at h
+  · split at h
+    · simp at h
+    · simp only [Option.map_eq_some_iff] at h
+      obtain ⟨rows, hrows, rfl⟩ := h
+      intro q hq
+      simp only [List.mem_append, List.mem_flatten, List.mem_singleton] at hq
+      rcases hq with ⟨row, hrow, hq⟩ | rfl
+      · have hmem := optAll_mem _ _ hrows row hrow
+        simp only [List.mem_map] at hmem
+        obtain ⟨k, _, hk⟩ := hmem
+        split at hk
+        · split at hk
+          · split at hk
+            · simp at hk
+            · simp only [Option.map_eq_some_iff] at hk
+              obtain ⟨leaves, hl, rfl⟩ := hk
+              simp only [List.mem_append, List.mem_singleton] at hq
+              rcases hq with hq | rfl
+              · have hm2 := optAll_mem _ _ hl q hq
+                simp only [List.mem_map] at hm2
+                obtain ⟨l', _, hl'⟩ := hm2
+                split at hl'
+                · simp only [Option.some.injEq] at hl'; subst hl'; exact ⟨_, rfl⟩
+                · simp at hl'
+              · exact ⟨_, rfl⟩
+          · simp only [Option.some.injEq] at hk; subst hk
+            simp only [List.mem_singleton] at hq; subst hq; exact ⟨_, rfl⟩
+        · simp at hk
+      · exact ⟨_, rfl⟩
+
+/-! ### well-levelledness of nested expansions -/
+
+theorem expandE_wl (tm : Py) (htm : TmOK tm) (x : Ex) (r : Result) (h : expandE tm x = some r) :
+    ∀ p ∈ r.exprs, WLb 0 p = true := by
+  cases x with
+  | num n l => simp [expandE] at h
+  | el e => simp [expandE] at h
+  | op f a b =>
+    have hg := Ex.term_g6 tm htm (Ex.op f a b)
+    have hsc : ∀ r, ((Ex.op f a b).term tm none).map Result.scalar = some r → ∀ p ∈ r.exprs, WLb 0 p = true := by
+      intro r hr
+      simp only [Option.map_eq_some_iff] at hr
+      obtain ⟨p, hp, rfl⟩ := hr
+      intro q hq
+      simp only [Result.exprs, List.mem_singleton] at hq; subst hq
+      exact (hg none _ hp).1
+    simp only [expandE] at h
+    split at h
+    · simp at h
+    · split at h
+      · exact hsc r h
+      · split at h
+        · simp at h
+        · exact hsc r h
+        · split at h
+          · split at h
+            · simp at h
+            · simp only [Option.map_eq_some_iff] at h
+              obtain ⟨es, hes, rfl⟩ := h
+              intro q hq
+              simp only [Result.exprs, List.mem_map] at hq
+              obtain ⟨kp, hkp, rfl⟩ := hq
+              obtain ⟨i, hi⟩ := List.getElem?_of_mem hkp
+              exact (hg _ _ (vecEntriesE_entry tm f a b _ _ es hes i kp hi).2).1
+          · split at h
+            · simp only [Option.map_eq_some_iff] at h
+              obtain ⟨rows, hrows, rfl⟩ := h
+              intro q hq
+              simp only [Result.exprs, List.mem_flatten] at hq
+              obtain ⟨row, hrow, hq⟩ := hq
+              obtain ⟨i, hi⟩ := List.getElem?_of_mem hrow
+              obtain ⟨j, hj⟩ := List.getElem?_of_mem hq
+              exact (hg _ _ (matEntriesE_entry tm _ _ _ rows hrows i j row q hi hj)).1
+            · simp at h
+
+/-- … hence the text of every entry of a nested expansion parses back to exactly the modelled tree -/
+theorem expandE_parses (tm : Py) (htm : TmOK tm) (x : Ex) (r : Result) (h : expandE tm x = some r) :
+    ∀ p ∈ r.exprs, Parses (pr p) p :=
+  fun p hp => parse_print p (expandE_wl tm htm x r h p hp)
+
+/-! ### `arr_sum(dimension)` -/
+
+/-- with an explicit dimension the aggregate is either refused (depth not reached: empty text) or exactly
+the `"*"` aggregate, to which `sum_spec` / `prod_spec` apply -/
+theorem aggDim_spec (g : Agg) (dim : Nat) (e : Elem) (p : Py) (h : aggDim g dim e = some p) :
+    (g = .sum ∨ g = .prod) ∧ aggTerm g e = some p ∧ (e.arrayed = true → e.depth ≤ dim) := by
+  cases g <;> simp only [aggDim] at h <;> (try (simp at h)) <;>
+  · split at h
+    · next hna => exact ⟨by simp, h, fun ha => by simp [ha] at hna⟩
+    · split at h
+      · simp at h
+      · next hd => exact ⟨by simp, h, fun _ => by omega⟩
+
+theorem aggDim_none (g : Agg) (dim : Nat) (e : Elem) (ha : e.arrayed = true) (hd : dim < e.depth) :
+    aggDim g dim e = none := by
+  cases g <;> simp [aggDim, ha, hd]
+
+/-! ## 5. The nested model restricted to flat operands is the wave-1 model -/
+
+theorem refT_now (nm : String) (p : List Key) : refT tNow nm p = ref nm p := rfl
+theorem subT_now (e : Elem) (idx : List Key) : e.subT tNow idx = e.sub idx := rfl
+
+theorem opnd_flat (o : Operand) (idx : List Key) :
+    (if (Ex.ofOperand o).arrEl = true then (Ex.ofOperand o).subEl tNow idx
+     else (Ex.ofOperand o).term tNow (some idx)) = o.at idx := by
+  cases o with
+  | num n l => simp [Ex.ofOperand, Ex.arrEl, Ex.term, Operand.at]
+  | el e =>
+    cases h : e.arrayed <;> simp [Ex.ofOperand, Ex.arrEl, Ex.term, Operand.at, Ex.subEl, h, subT_now, refT_now]
+
+theorem term_flat_notArr (o : Operand) (I : Option (List Key)) (h : (Ex.ofOperand o).arrEl = false) :
+    (Ex.ofOperand o).term tNow I = some o.term := by
+  cases o with
+  | num n l => simp [Ex.ofOperand, Ex.term, Operand.term]
+  | el e => simp [Ex.ofOperand, Ex.term, Operand.term, refT_now]
+
+theorem at_notArr (o : Operand) (idx : List Key) (h : (Ex.ofOperand o).arrEl = false) : o.at idx = some o.term := by
+  cases o with
+  | num n l => simp [Operand.at, Operand.term]
+  | el e => simp only [Ex.ofOperand, Ex.arrEl] at h; simp [Operand.at, Operand.term, h]
+
+theorem opt2_eq (f : Py → Py → Py) (ox oy : Option Py) :
+    opt2 f ox oy = (match ox, oy with | some x, some y => some (f x y) | _, _ => none) := by
+  cases ox <;> cases oy <;> rfl
+
+theorem dims_flat (o : Operand) : (Ex.ofOperand o).dims = some o.dims := by
+  cases o <;> rfl
+
+theorem operand_dims_cases (o : Operand) : o.dims = .val ∨ ∃ m n, o.dims = .d2 m n ∧ 0 < m := by
+  cases o with
+  | num n l => left; rfl
+  | el e =>
+    simp only [Operand.dims, elemDims]
+    cases h : e.arrayed with
+    | false => left; simp
+    | true =>
+      right
+      refine ⟨e.keys.length, e.inner.length, by simp, ?_⟩
+      simp only [Elem.arrayed, Bool.not_eq_eq_eq_not, Bool.not_true, List.isEmpty_eq_false_iff] at h
+      exact List.length_pos_of_ne_nil h
+
+theorem subEl_flat (o : Operand) (idx : List Key) : (Ex.ofOperand o).subEl tNow idx = subOf o idx := by
+  cases o <;> simp [Ex.ofOperand, Ex.subEl, subOf, subT_now]
+
+theorem subA_flat (o : Operand) (hd : o.dims ≠ .val) (ix : List Key) :
+    (match Ex.ofOperand o with | .el e => e.subT tNow ix | _ => (Ex.ofOperand o).term tNow (some ix)) = subOf o ix := by
+  cases o with
+  | num n l => simp [Operand.dims] at hd
+  | el e => simp [Ex.ofOperand, subOf, subT_now]
+
+/-- on flat operands the nested model is the wave-1 model: same per-index term … -/
+theorem term_flat (f : Form) (a b : Operand) (idx : List Key) :
+    (Ex.op f (.ofOperand a) (.ofOperand b)).term tNow (some idx) = termAt f a b idx := by
+  cases f with
+  | ew o =>
+    simp only [Ex.term, termAt]
+    split
+    · rw [opnd_flat, opnd_flat]
+      cases a.at idx <;> cases b.at idx <;> rfl
+    · next hc =>
+      have hc' : (Ex.ofOperand a).arrEl = false ∧ (Ex.ofOperand b).arrEl = false := by simpa using hc
+      rw [term_flat_notArr a _ hc'.1, term_flat_notArr b _ hc'.2, at_notArr a idx hc'.1, at_notArr b idx hc'.2]
+      rfl
+  | nmul =>
+    simp only [Ex.term, termAt]
+    split
+    · rw [opnd_flat, opnd_flat]
+      cases b.at idx <;> cases a.at idx <;> rfl
+    · next hc =>
+      have hc' : (Ex.ofOperand a).arrEl = false ∧ (Ex.ofOperand b).arrEl = false := by simpa using hc
+      rw [term_flat_notArr a _ hc'.1, term_flat_notArr b _ hc'.2, at_notArr a idx hc'.1, at_notArr b idx hc'.2]
+      rfl
+  | dot =>
+    simp only [Ex.term, termAt, dims_flat]
+    unfold dotTerm
+    rcases operand_dims_cases a with ha | ⟨m, n, ha, hm⟩ <;> rcases operand_dims_cases b with hb | ⟨m', n', hb, hm'⟩
+    · simp [ha, hb]
+    · have hbn : b.dims ≠ .val := by simp [hb]
+      have haE : (Ex.ofOperand a).arrEl = false := by
+        cases a with
+        | num _ _ => rfl
+        | el e => simp only [Operand.dims, elemDims] at ha; simp only [Ex.ofOperand, Ex.arrEl]; split at ha <;> simp_all
+      simp only [ha, hb, term_flat_notArr a _ haE, subEl_flat]
+      cases subOf b idx <;> simp [opt2]
+    · have hbE : (Ex.ofOperand b).arrEl = false := by
+        cases b with
+        | num _ _ => rfl
+        | el e => simp only [Operand.dims, elemDims] at hb; simp only [Ex.ofOperand, Ex.arrEl]; split at hb <;> simp_all
+      simp only [ha, hb, term_flat_notArr b _ hbE, subEl_flat]
+      cases subOf a idx <;> simp [opt2]
+    · cases a with
+      | num _ _ => simp [Operand.dims] at ha
+      | el ea =>
+        cases b with
+        | num _ _ => simp [Operand.dims] at hb
+        | el eb =>
+          simp only [ha, hb, Ex.ofOperand, Ex.subEl, subOf, subT_now]
+          cases n with
+          | zero =>
+            cases n' with
+            | zero => by_cases hmm : m = m' <;> simp [Dims.isVec, Dims.rows, hmm]
+            | succ n' => simp [Dims.isVec, Dims.rows, Dims.snd]
+          | succ n =>
+            cases n' with
+            | zero => simp [Dims.isVec, Dims.rows, Dims.snd]
+            | succ n' => simp [Dims.isVec, Dims.rows, Dims.snd]
+
+
+theorem arrEl_flat (o : Operand) : (Ex.ofOperand o).arrEl = o.arrayed := by cases o <;> rfl
+theorem anyArr_flat (o : Operand) : (Ex.ofOperand o).anyArr = o.arrayed := by cases o <;> rfl
+theorem wf_flat (o : Operand) : (Ex.ofOperand o).wf = true := by cases o <;> rfl
+
+theorem ctor_flat (f : Form) (a b : Operand) : ctorE f (.ofOperand a) (.ofOperand b) = ctorOK f a b := by
+  cases f <;> cases a <;> cases b <;> simp [ctorE, ctorOK, Ex.ofOperand, Ex.namedArr]
+
+theorem dimsOp_flat (f : Form) (a b : Operand) :
+    (Ex.op f (.ofOperand a) (.ofOperand b)).dims = resolve f a b := by
+  simp only [Ex.dims, dims_flat]
+  cases f with
+  | ew o => rfl
+  | nmul => rfl
+  | dot =>
+    simp only [resolve, resolveDot, resolveDotD]
+    rcases operand_dims_cases a with ha | ⟨m, n, ha, _⟩ <;> rcases operand_dims_cases b with hb | ⟨m', n', hb, _⟩
+    · simp [ha, hb]
+    · simp [ha, hb]
+    · simp [ha, hb]
+    · rw [ha, hb]
+      cases n <;> cases n' <;> simp [Dims.isVec, Dims.rows, Dims.snd] <;> congr
+
+theorem isNamed_flat (f : Form) (a b : Operand) : isNamedE f (.ofOperand a) (.ofOperand b) = isNamed f a b := by
+  cases f <;> cases a <;> cases b <;> simp [isNamedE, isNamed, Ex.ofOperand, Ex.namedOf, Ex.arrEl, Operand.arrayed] <;> congr
+
+theorem indexKey_flat (f : Form) (a b : Operand) (i : Nat) :
+    indexKeyE f (.ofOperand a) (.ofOperand b) i = indexKey f a b i := by
+  cases f <;> cases a <;> cases b <;> simp [indexKeyE, indexKey, Ex.ofOperand, Ex.keysOf, Ex.arrEl, Operand.arrayed] <;> congr
+
+theorem vecEntries_flat (f : Form) (a b : Operand) (nm : Bool) (m : Nat) :
+    vecEntriesE tNow f (.ofOperand a) (.ofOperand b) nm m = vecEntries f a b nm m := by
+  unfold vecEntriesE vecEntries
+  congr 1
+  apply List.map_congr_left
+  intro i _
+  cases nm with
+  | true => simp only [vecIndexE, if_true, indexKey_flat, term_flat]
+  | false => simp [vecIndexE, term_flat]
+
+theorem matEntries_flat (f : Form) (a b : Operand) (m n : Nat) :
+    matEntriesE tNow (Ex.op f (.ofOperand a) (.ofOperand b)) m n = matEntries f a b m n := by
+  unfold matEntriesE matEntries
+  simp only [term_flat]
+
+theorem termNone_flat (f : Form) (a b : Operand)
+    (h : (a.arrayed || b.arrayed) = false ∨ f = .dot) :
+    (Ex.op f (.ofOperand a) (.ofOperand b)).term tNow none = termNoIndex f a b := by
+  cases f with
+  | ew o =>
+    rcases h with h | h
+    · have h' : a.arrayed = false ∧ b.arrayed = false := by simpa using h
+      simp only [Ex.term, arrEl_flat, h'.1, h'.2, Bool.or_self, Bool.false_eq_true, if_false, termNoIndex]
+      rw [term_flat_notArr a _ (by rw [arrEl_flat]; exact h'.1), term_flat_notArr b _ (by rw [arrEl_flat]; exact h'.2)]
+      rfl
+    · simp at h
+  | nmul =>
+    rcases h with h | h
+    · have h' : a.arrayed = false ∧ b.arrayed = false := by simpa using h
+      simp only [Ex.term, arrEl_flat, h'.1, h'.2, Bool.or_self, Bool.false_eq_true, if_false, termNoIndex]
+      rw [term_flat_notArr a _ (by rw [arrEl_flat]; exact h'.1), term_flat_notArr b _ (by rw [arrEl_flat]; exact h'.2)]
+      rfl
+    · simp at h
+  | dot =>
+    simp only [Ex.term, dims_flat, termNoIndex, dotTermNoIndex, subEl_flat]
+    rcases operand_dims_cases a with ha | ⟨m, n, ha, _⟩ <;> rcases operand_dims_cases b with hb | ⟨m', n', hb, _⟩
+    · simp [ha, hb]
+    · simp [ha, hb]
+    · rw [ha, hb]; cases n <;> simp [Dims.isVec]
+    · rw [ha, hb]
+      cases n <;> cases n' <;> simp [Dims.isVec, Dims.rows] <;> congr
+
+theorem arrayed_dims (o : Operand) (h : o.arrayed = true) : ∃ m n, o.dims = .d2 m n := by
+  cases o with
+  | num _ _ => simp [Operand.arrayed] at h
+  | el e => simp only [Operand.arrayed] at h; exact ⟨e.keys.length, e.inner.length, by simp [Operand.dims, elemDims, h]⟩
+
+theorem resolveEw_ne_val (a b : Operand) (h : (a.arrayed || b.arrayed) = true) : resolveEw a b ≠ some .val := by
+  simp only [resolveEw]
+  rcases operand_dims_cases a with ha | ⟨m, n, ha, _⟩ <;> rcases operand_dims_cases b with hb | ⟨m', n', hb, _⟩
+  · exfalso
+    simp only [Bool.or_eq_true] at h
+    rcases h with h | h
+    · obtain ⟨_, _, hd⟩ := arrayed_dims a h; rw [hd] at ha; simp at ha
+    · obtain ⟨_, _, hd⟩ := arrayed_dims b h; rw [hd] at hb; simp at hb
+  · simp [ha, hb]
+  · simp [ha, hb]
+  · rw [ha, hb]; simp only [ne_eq, reduceCtorEq, not_false_eq_true, and_self, if_true]; split <;> simp
+
+/-- **conservative extension**: on flat operands (numbers, elements) the nested model `expandE` IS the
+wave-1 model `expand`, so every wave-1 theorem is a statement about `expandE` on flat trees. -/
+theorem expandE_flat (f : Form) (a b : Operand) :
+    expandE tNow (Ex.op f (.ofOperand a) (.ofOperand b)) = expand f a b := by
+  simp only [expandE, expand, Ex.wf, wf_flat, ctor_flat, Bool.true_and, Ex.anyArr, anyArr_flat, dimsOp_flat]
+  split
+  · rfl
+  · split
+    · next h => rw [termNone_flat f a b (Or.inl (by simpa using h))]
+    · next hnot harr =>
+      have harr' : (a.arrayed || b.arrayed) = true := by
+        cases ha : a.arrayed <;> cases hb : b.arrayed <;> simp_all
+      cases hr : resolve f a b with
+      | none => rfl
+      | some d =>
+        cases d with
+        | val =>
+          simp only
+          cases f with
+          | dot => rw [termNone_flat .dot a b (Or.inr rfl)]
+          | ew o => exact absurd hr (resolveEw_ne_val a b harr')
+          | nmul => exact absurd hr (resolveEw_ne_val a b harr')
+        | d1 m => simp only [expandArr, isNamed_flat, vecEntries_flat, Dims.isVec, if_true]
+        | d2 m n =>
+          simp only [expandArr]
+          split
+          · simp only [isNamed_flat, vecEntries_flat]
+          · simp only [matEntries_flat]
+
 /-! ## C10 at full strength (for the modelled operand kinds) -/
+
+/-- The wave-2 clauses of `C10_full`.  For ALL operand TREES `x` (numbers, elements, operators over such
+operands to any depth), time arguments `tm` printable as a call argument (`t`, `t-model.dt`), stocks `s`,
+commutative semirings and value assignments:
+* (matrix aggregates) mean/median/std of ANY arrayed element — vector or matrix, indexed or named — receive
+  exactly the row-major entry list;
+* (nested syntax) every entry of a nested expansion is well-levelled and parses back to the modelled tree;
+* (nested semantics) the term of the clone of `x` with index `idx` — at every level, including what the dot
+  product obtains from a compound operand through `arrayed_term` — evaluates to the numpy entry `valD x idx`
+  (`nested_spec`), hence every entry `expandE` assigns is that entry (`expandE_spec`); `valD` is element-wise
+  at `+ - * /` nodes and `Matrix.mul` / `mulVec` / `vecMul` / `dotProduct` of the operands' entry matrices
+  at `dot` nodes, for operand trees of any depth;
+* (conservativity) on flat operands `expandE` is the wave-1 `expand`;
+* (Stock branch) every sub-stock the branch assigns is the one stored under the index its flow was cloned
+  with, the flow evaluates to the numpy entry at that index, and the stock function string around it is
+  well-levelled and parses; the element branch assigns references to the sub-elements of the equation;
+* (explicit dimension) `arr_sum(d)` / `arr_prod(d)` is refused below the depth of the entries and otherwise
+  the `"*"` aggregate. -/
+def C10_wave2 : Prop :=
+  (∀ (R : Type) [CommSemiring R] (O : Ops R) (ρ : String → R) (σ : Nat → V R),
+    (∀ (e : Elem) (fn : String), eval (car O ρ) σ (npCall fn e.display) = .r (O.fn fn (e.vals ρ))) ∧
+    (∀ (tm : Py) (x : Ex), (∀ idx p, x.arrEl = false → x.term tm (some idx) = some p →
+        eval (car O ρ) σ p = .r (x.valD O ρ idx)) ∧
+      (∀ p, x.arrEl = false → x.dims = some .val → x.term tm none = some p →
+        eval (car O ρ) σ p = .r (x.valD O ρ []))) ∧
+    (∀ (tm : Py) (x : Ex) (r : Result), expandE tm x = some r →
+      (∀ p, r = .scalar p → eval (car O ρ) σ p = .r (x.valD O ρ [])) ∧
+      (∀ nm es, r = .vector nm es → ∀ kp ∈ es, eval (car O ρ) σ kp.2 = .r (x.valD O ρ [kp.1])) ∧
+      (∀ rows, r = .matrix rows → ∀ i j row p, rows[i]? = some row → row[j]? = some p →
+        eval (car O ρ) σ p = .r (x.valD O ρ [.i i, .i j]))) ∧
+    (∀ (o : EwOp) (a b : Ex) (idx : List Key), (Ex.op (.ew o) a b).valD O ρ idx = ewVal O o (a.valD O ρ idx) (b.valD O ρ idx)) ∧
+    (∀ (a b : Ex) (idx : List Key), (Ex.op .nmul a b).valD O ρ idx = b.valD O ρ idx * a.valD O ρ idx) ∧
+    (∀ (a b : Ex) (m n p : Nat), n ≠ 0 → p ≠ 0 → a.dims = some (.d2 m n) → b.dims = some (.d2 n p) → ∀ (i : Fin m) (j : Fin p),
+      (Ex.op .dot a b).valD O ρ [.i i, .i j] = (a.matD O ρ m n * b.matD O ρ n p) i j) ∧
+    (∀ (a b : Ex) (m n : Nat) (d : Dims), n ≠ 0 → d.isVec = true → a.dims = some (.d2 m n) → b.dims = some d → ∀ (i : Fin m),
+      (Ex.op .dot a b).valD O ρ [.i i] = Matrix.mulVec (a.matD O ρ m n) (b.vecD O ρ n) i) ∧
+    (∀ (a b : Ex) (m n : Nat) (d : Dims), n ≠ 0 → d.isVec = true → d.rows = m → a.dims = some d → b.dims = some (.d2 m n) → ∀ (j : Fin n),
+      (Ex.op .dot a b).valD O ρ [.i j] = Matrix.vecMul (a.vecD O ρ m) (b.matD O ρ m n) j) ∧
+    (∀ (a b : Ex) (m : Nat) (d d' : Dims), d.isVec = true → d'.isVec = true → d.rows = m → a.dims = some d → b.dims = some d' → ∀ idx,
+      (Ex.op .dot a b).valD O ρ idx = dotProduct (a.vecD O ρ m) (b.vecD O ρ m)) ∧
+    (∀ (s : Elem) (x : Ex) (l : List (List Key × Py)), stockAssign s x = some l →
+      ∀ e ∈ l, G6 e.2 ∧ ∃ idx, s.path idx = some e.1 ∧ eval (car O ρ) σ e.2 = .r (x.valD O ρ idx))) ∧
+  (∀ (tm : Py), TmOK tm → ∀ (x : Ex) (r : Result), expandE tm x = some r → ∀ p ∈ r.exprs, WLb 0 p = true ∧ Parses (pr p) p) ∧
+  (TmOK tNow ∧ TmOK tPrev) ∧
+  (∀ (f : Form) (a b : Operand), expandE tNow (Ex.op f (.ofOperand a) (.ofOperand b)) = expand f a b) ∧
+  (∀ (nm : String) (init p : Py), WLb 0 init = true → WLb 0 p = true →
+    WLb 0 (stockFs nm init (some p)) = true ∧ Parses (pr (stockFs nm init (some p))) (stockFs nm init (some p))) ∧
+  (∀ (s e : Elem) (l : List (List Key × Py)), stockAssignEl s e = some l → ∀ q ∈ l, ∃ pe, q.2 = refT tPrev e.name pe) ∧
+  (∀ (g : Agg) (dim : Nat) (e : Elem) (p : Py), aggDim g dim e = some p →
+    (g = .sum ∨ g = .prod) ∧ aggTerm g e = some p ∧ (e.arrayed = true → e.depth ≤ dim)) ∧
+  (∀ (g : Agg) (dim : Nat) (e : Elem), e.arrayed = true → dim < e.depth → aggDim g dim e = none)
+
+theorem C10_wave2_holds : C10_wave2 := by
+  refine ⟨?_, fun tm htm x r h p hp => ⟨expandE_wl tm htm x r h p hp, expandE_parses tm htm x r h p hp⟩,
+    ⟨tNow_ok, tPrev_ok⟩, expandE_flat,
+    fun nm init p hi hp => ⟨stockFs_wl nm init p hi hp, stockFs_parses nm init p hi hp⟩,
+    stockAssignEl_refs, aggDim_spec, aggDim_none⟩
+  intro R _ O ρ σ
+  exact ⟨agg_args O ρ σ, fun tm x => nested_spec O ρ σ tm x, fun tm x r h => expandE_spec O ρ σ tm x r h,
+    valD_ew O ρ, valD_nmul O ρ,
+    fun a b m n p hn hp ha hb i j => valD_dot_mm O ρ a b m n p hn hp ha hb i j,
+    fun a b m n d hn hd ha hb i => valD_dot_mv O ρ a b m n d hn hd ha hb i,
+    fun a b m n d hn hd hr ha hb j => valD_dot_vm O ρ a b m n d hn hd hr ha hb j,
+    fun a b m d d' hd hd' hr ha hb idx => valD_dot_vv O ρ a b m d d' hd hd' hr ha hb idx,
+    fun s x l h => stockAssign_spec O ρ σ s x l h⟩
 
 /-- For ALL operator forms, operands (numbers, scalar elements, vectors and matrices of any size,
 indexed or named), indices, commutative semirings `R` and value assignments `ρ`:
@@ -1169,12 +2440,14 @@ def C10_full : Prop :=
   (∀ f a b m n rows, matEntries f a b m n = some rows → ∀ i j row p, rows[i]? = some row → row[j]? = some p →
     termAt f a b [.i i, .i j] = some p) ∧
   (∀ f a b m es, vecEntries f a b false m = some es → ∀ i kp, es[i]? = some kp →
-    kp.1 = .i i ∧ termAt f a b [.i i] = some kp.2)
+    kp.1 = .i i ∧ termAt f a b [.i i] = some kp.2) ∧
+  -- wave 2
+  C10_wave2
 
 theorem C10_full_holds : C10_full := by
   refine ⟨fun f a b r h p hp => ⟨expand_wl f a b r h p hp, expand_parses f a b r h p hp⟩,
     fun g e p h => ⟨aggTerm_wl g e p h, aggTerm_parses g e p h⟩, ?_, ?_, size_spec, dims_spec,
-    expand_none_of_resolve, expand_none_of_ctor, matEntries_entry, vecEntries_entry⟩
+    expand_none_of_resolve, expand_none_of_ctor, matEntries_entry, vecEntries_entry, C10_wave2_holds⟩
   · intro R _ O ρ σ
     exact ⟨elementwise_spec O ρ σ, nmul_spec O ρ σ, dot_mm O ρ σ, dot_mv O ρ σ, dot_vm O ρ σ, dot_vv O ρ σ,
       fun a b idx p hb ha h => dot_scalar_right O ρ σ a b idx hb ha p h,
@@ -1199,7 +2472,26 @@ example : (match dotTerm (.el (.mat "A" 1 2)) (.el (.vec "v" 2)) [.i 0] with
         | _ => 0)
     | none => 0) = 7 * 4 + 7 * 4 := by decide +kernel
 
+/-- wave 2 non-vacuity: a depth-3 nested dot product is accepted and its first entry is the modelled token
+list; the same tree with a mismatching inner shape is rejected; an arrayed stock receives per-index flows at
+`t-model.dt`; `arr_sum(1)` of a matrix is refused, `arr_sum(2)` is the full chain. -/
+example :
+    (expandE tNow (.op .dot (.el (.mat "M" 1 2)) (.op (.ew .add) (.op (.ew .add) (.el (.vec "a" 2)) (.el (.vec "b" 2))) (.el (.vec "c" 2))))).map
+        (fun r => r.exprs.length) = some 1 ∧
+    (expandE tNow (.op .dot (.el (.mat "M" 1 2)) (.op (.ew .add) (.op (.ew .add) (.el (.vec "a" 2)) (.el (.vec "b" 3))) (.el (.vec "c" 2))))) = none ∧
+    (stockAssign (.vec "S" 2) (.op (.ew .mul) (.el (.vec "a" 2)) (.op (.ew .sub) (.el (.vec "b" 2)) (.num false "2.0")))).map
+        (fun l => l.map (·.1)) = some [[.i 0], [.i 1]] ∧
+    aggDim .sum 1 (.mat "A" 2 2) = none ∧
+    (aggDim .sum 2 (.mat "A" 2 2)).isSome = true := by decide +kernel
+
 #print axioms C10_full_holds
+#print axioms C10_wave2_holds
+#print axioms nested_spec
+#print axioms expandE_spec
+#print axioms expandE_flat
+#print axioms agg_args
+#print axioms stockAssign_spec
+#print axioms valD_dot_mm
 #print axioms expand_wl
 #print axioms dot_mm
 #print axioms dims_spec
